@@ -160,6 +160,9 @@ fn specials() -> Vec<Special> {
         Special { what: "a lazy cycle is fine", files: vec![("D0/a.libsonnet", b"{x: 1, y: (import \"b.libsonnet\").z}".to_vec()), ("D0/b.libsonnet", b"{z: (import \"a.libsonnet\").x}".to_vec())], symlinks: vec![], dirs: vec![], main: "(import \"a.libsonnet\").y", jpaths: vec![], want: Some("1"), traces: None, stderr_has: None },
         Special { what: "dangling symlink is a missing file", files: vec![], symlinks: vec![("D0/x.libsonnet", "nowhere")], dirs: vec![], main: "import \"x.libsonnet\"", jpaths: vec![], want: None, traces: None, stderr_has: Some("main.jsonnet:1:") },
         Special { what: "import of a directory is an error at the import site", files: vec![], symlinks: vec![], dirs: vec!["D0/x.libsonnet"], main: "local a = 1;\n  importstr \"x.libsonnet\"", jpaths: vec![], want: None, traces: None, stderr_has: Some("main.jsonnet:2:3") },
+        Special { what: "a directory in a higher-priority location is an unreadable file, not a miss (importer's directory)", files: vec![("J1/x.libsonnet", b"\"from-J1\"".to_vec())], symlinks: vec![], dirs: vec!["D0/x.libsonnet"], main: "import \"x.libsonnet\"", jpaths: vec!["J1"], want: None, traces: None, stderr_has: Some("main.jsonnet:1:") },
+        Special { what: "a directory in a higher-priority -J location is an unreadable file, not a miss", files: vec![("J1/x.libsonnet", b"\"from-J1\"".to_vec())], symlinks: vec![], dirs: vec!["J2/x.libsonnet"], main: "importstr \"x.libsonnet\"", jpaths: vec!["J1", "J2"], want: None, traces: None, stderr_has: Some("main.jsonnet:1:") },
+        Special { what: "a directory in a lower-priority location does not matter", files: vec![("J2/x.libsonnet", b"\"from-J2\"".to_vec())], symlinks: vec![], dirs: vec!["J1/x.libsonnet"], main: "import \"x.libsonnet\"", jpaths: vec!["J1", "J2"], want: Some("\"from-J2\""), traces: None, stderr_has: None },
         Special { what: "missing import reported at the import site (second line)", files: vec![], symlinks: vec![], dirs: vec![], main: "local a = 1;\n[a, import \"nope.libsonnet\"]", jpaths: vec![], want: None, traces: None, stderr_has: Some("main.jsonnet:2:5") },
         Special { what: "unused import of a missing file is never resolved", files: vec![], symlinks: vec![], dirs: vec![], main: "local a = import \"nope.libsonnet\"; 1", jpaths: vec![], want: Some("1"), traces: None, stderr_has: None },
         Special { what: "imported file with a syntax error fails", files: vec![("D0/x.libsonnet", b"{a: ".to_vec())], symlinks: vec![], dirs: vec![], main: "import \"x.libsonnet\"", jpaths: vec![], want: None, traces: None, stderr_has: Some("x.libsonnet") },
